@@ -229,8 +229,14 @@ def chain(py: PyRepo, cls_name: str) -> list[ClassInfo]:
 
 def bytes_elts(v):
     """`bytes([a, b, *c])` -> list of element expressions, else None"""
-    if v[0] == 'call' and v[1] == ('name', 'bytes') and len(v[2]) == 1 and v[2][0][0] == 'list':
-        return list(v[2][0][1])
+    if v[0] == 'call' and v[1] in (('name', 'bytes'), ('name', 'pack')) and len(v[2]) == 1:
+        a = v[2][0]
+        # bytes([..]) / bytes((..)) / pack(iter((..))): `pack` is the byte-rendering helper of instruction.py (whether it bounds its
+        # input like bytes() does is decided by C03's bounded-write rule, not here)
+        while a[0] == 'call' and a[1] in (('name', 'iter'), ('name', 'list'), ('name', 'tuple')) and len(a[2]) == 1:
+            a = a[2][0]
+        if a[0] in ('list', 'tuple'):
+            return list(a[1])
     return None
 
 
